@@ -10,13 +10,15 @@
    the real objects after replaying the same history (engine/pure/wrapper_child.py).                        *)
 EXTENDS Naturals, Sequences, TLC
 
-CONSTANTS Kinds, MaxSt, MaxDepth, MaxSteps
+CONSTANTS Kinds, MaxSt, MaxDepth, MaxSteps,
+          Protos      \* pickle protocols of the plain-pickle round trip (the wrapped payload must not depend on it)
 
 \* kinds: functions (lambda, closure with a counter, recursive), instances (cinst: callable, inst: not, icinst: callable
 \* through a __call__ it INHERITS from a base class), classes (ccls / cls / icls likewise) and the instances built by
-\* calling a wrapped class (*_inst)
+\* calling a wrapped class (*_inst); sinst: instance of a class with __slots__ and no __getstate__ (cloudpickle serialises
+\* it at its own protocol only), bufinst: instance holding a pickle.PickleBuffer (in-band at protocol 5 only)
 Callable(k) == k \in {"lambda", "closure", "rec", "cinst", "ccls_inst", "icinst", "icls_inst"}
-Stateful(k) == k \in {"closure", "cinst", "inst", "ccls_inst", "cls_inst", "icinst", "icls_inst"}
+Stateful(k) == k \in {"closure", "cinst", "inst", "ccls_inst", "cls_inst", "icinst", "icls_inst", "sinst", "bufinst"}
 IsClass(k) == k \in {"ccls", "cls", "icls"}
 InstKind(k) == IF k = "ccls" THEN "ccls_inst" ELSE IF k = "icls" THEN "icls_inst" ELSE "cls_inst"
 None == [kind |-> "none", st |-> 0, w |-> <<>>, viaClass |-> FALSE]
@@ -41,11 +43,11 @@ Wrap(keep) == /\ Tick
 Instantiate(s0) == /\ Tick /\ IsClass(orig.kind) /\ orig.w # <<>>
                    /\ orig' = [kind |-> InstKind(orig.kind), st |-> s0, w |-> orig.w, viaClass |-> TRUE]
                    /\ last' = <<"instantiate", s0>> /\ out' = "ok" /\ UNCHANGED copy
-RoundTrip(which) == /\ Tick
+RoundTrip(which, p) == /\ Tick
                     /\ LET h == IF which = "orig" THEN orig ELSE copy IN
                        /\ h.kind # "none" /\ h.w # <<>> /\ ~IsClass(h.kind)
                        /\ copy' = RT(h)
-                    /\ last' = <<"roundtrip", which>> /\ out' = "ok" /\ UNCHANGED orig
+                    /\ last' = <<"roundtrip", which, p>> /\ out' = "ok" /\ UNCHANGED orig
 \* call x(arg): stateful kinds add arg to their state and return it; stateless ones return a constant
 Call(which, arg) ==
   /\ Tick
@@ -58,14 +60,14 @@ Call(which, arg) ==
 Bump(which) ==
   /\ Tick
   /\ LET h == IF which = "orig" THEN orig ELSE copy IN
-     /\ h.kind \in {"inst", "cls_inst", "cinst", "ccls_inst", "icinst", "icls_inst"} /\ h.st < MaxSt
+     /\ h.kind \in {"inst", "cls_inst", "cinst", "ccls_inst", "icinst", "icls_inst", "sinst", "bufinst"} /\ h.st < MaxSt
      /\ IF which = "orig" THEN orig' = [orig EXCEPT !.st = @ + 1] /\ UNCHANGED copy
         ELSE copy' = [copy EXCEPT !.st = @ + 1] /\ UNCHANGED orig
   /\ last' = <<"bump", which>> /\ out' = "ok"
 
 Next == \/ \E k \in BOOLEAN : Wrap(k)
         \/ \E s \in 0..1 : Instantiate(s)
-        \/ \E x \in {"orig", "copy"} : RoundTrip(x) \/ Bump(x) \/ (\E a \in 0..1 : Call(x, a))
+        \/ \E x \in {"orig", "copy"} : (\E p \in Protos : RoundTrip(x, p)) \/ Bump(x) \/ (\E a \in 0..1 : Call(x, a))
 Spec == Init /\ [][Next]_vars
 
 -----------------------------------------------------------------------------
@@ -73,12 +75,12 @@ Spec == Init /\ [][Next]_vars
 \* the wrapper is callable iff the object is (class wrappers are constructors)
 CallableOf(h) == IF IsClass(h.kind) THEN TRUE ELSE Callable(h.kind)
 \* "arrives unwrapped or still wrapped exactly as keep_wrapper says"
-ArrivalRule == [][ \A x \in {"orig", "copy"} : RoundTrip(x) =>
+ArrivalRule == [][ \A x \in {"orig", "copy"}, p \in Protos : RoundTrip(x, p) =>
                      LET h == IF x = "orig" THEN orig ELSE copy IN
                      /\ copy'.st = h.st /\ copy'.kind = h.kind
                      /\ (copy'.w # <<>>) = (\E i \in 1..Len(h.w) : h.w[i])
                      /\ \A i \in 1..Len(copy'.w) : copy'.w[i] ]_vars
 \* a round trip never changes the object the user holds
-OrigUntouched == [][ (\E x \in {"orig", "copy"} : RoundTrip(x)) => orig' = orig ]_vars
+OrigUntouched == [][ (\E x \in {"orig", "copy"}, p \in Protos : RoundTrip(x, p)) => orig' = orig ]_vars
 StBounded == orig.st <= MaxSt /\ copy.st <= MaxSt
 =============================================================================
